@@ -164,6 +164,17 @@ class Bounds:
             l2, h2 = self.itv(la[0], depth + 1)
             return l2 + la[1], h2 + la[1]
 
+        if k == "field" and depth < 3:
+            # an integer field that only the constructors of its type ever set (`hash_len` cached at construction)
+            owner = self.adt_of_term(a[1])
+            if owner:
+                try:
+                    from lib import immutable_field_ints
+                    ints = immutable_field_ints(self.W, owner, a[2])
+                except Exception:
+                    ints = None
+                if ints:
+                    lo, hi = max(lo, ints[0]), min(hi, ints[-1])
         if k == "len":
             lo, hi = max(lo, 0), min(hi, ISIZE_MAX)
             base = a[1]
